@@ -137,6 +137,9 @@ func c06Judge(c *mon.Ctx, arrA, arrB []any, wrap int, scalarOnly bool) {
 // produces), checked equal to b.
 func viaPatch(r *gen.RNG, b any) (jd.JsonNode, bool) {
 	other := gen.Perturb(r, gen.PTiny, b)
+	if r.Chance(0.3) {
+		other = fillEmptyArrays(r, ref.Clone(b)) // so that the patch that builds b empties some list completely
+	}
 	oText, bText := ref.ToJSON(other), ref.ToJSON(b)
 	// the patch that builds b may itself be a list, set, multiset or merge patch
 	modes := []OptSet{OptNone, OptNone, OptSetO, OptMset}
@@ -153,6 +156,24 @@ func viaPatch(r *gen.RNG, b any) (jd.JsonNode, bool) {
 		return nil, false // a set / multiset patch may legitimately reorder: only exact copies of b are used
 	}
 	return P, true
+}
+
+// fillEmptyArrays puts elements into every empty array of v.
+func fillEmptyArrays(r *gen.RNG, v any) any {
+	switch t := v.(type) {
+	case []any:
+		if len(t) == 0 {
+			return []any{gen.Scalar(r, gen.PTiny), gen.Scalar(r, gen.PTiny)}
+		}
+		for i := range t {
+			t[i] = fillEmptyArrays(r, t[i])
+		}
+	case map[string]any:
+		for k := range t {
+			t[k] = fillEmptyArrays(r, t[k])
+		}
+	}
+	return v
 }
 
 func init() {
